@@ -190,13 +190,16 @@ Proof.
   2:{ intros H; injection H as <- <-. apply good_refl; exact I. }
   assert (Hps : pending_state (pstate pr) = true) by (destruct (pstate pr); try discriminate; reflexivity).
   pose proof (wf_unresolved _ Wp Hps) as (U1 & U2 & U3).
-  match goal with |- chain_to _ _ ?s1 _ _ = _ -> _ => set (s1' := s1) end.
+  match goal with |- (let '(_, _) := chain_to _ _ ?s1 _ _ in _) = _ -> _ => set (s1' := s1) end.
   assert (G1 : Good s s1' []).
   { eapply setp_good; eauto.
     - left. repeat split; assumption.
     - left. repeat split; assumption. }
-  intros H. apply chain_to_good in H; [|eapply good_inv; exact G1].
-  replace e with ([] ++ e) by reflexivity. eapply good_trans; eassumption.
+  destruct (chain_to good_pcfg top s1' p q) as [s2 e2] eqn:Ec.
+  intros H; injection H as <- <-. apply chain_to_good in Ec; [|eapply good_inv; exact G1].
+  change (EChained p q :: e2) with ([] ++ ([EChained p q] ++ e2)).
+  eapply good_trans; [exact G1|]. eapply good_trans; [|exact Ec].
+  apply good_evs; [eapply good_inv; exact G1|]. constructor; [|constructor]. apply no_outcome_ok; reflexivity.
 Qed.
 
 Lemma send_op_good s p m b wr s' e :
@@ -240,11 +243,49 @@ Proof.
   destruct (W _ _ Hp) as [Hl Wp]. cbn [good_pcfg pc_wait_on].
   destruct (pending_state (pstate pr)) eqn:Hs.
   - pose proof (wf_unresolved _ Wp Hs) as (U1 & U2 & U3). rewrite U2.
-    intros H; injection H as <- <-. eapply setp_good; eauto; left; repeat split; assumption.
+    intros H; injection H as <- <-.
+    assert (G : Good s (setp s p {| pstate := pstate pr; ptarget := ptarget pr; plive := true; ppending := ppending pr;
+                                    pwatch := pwatch pr ++ [Promise.W w] |}) []).
+    { eapply setp_good; eauto; left; repeat split; assumption. }
+    destruct G as (A & B & _). split; [exact A|]. split; [exact B|].
+    constructor; [|constructor]. apply no_outcome_ok; reflexivity.
   - destruct (wf_resolved _ Wp Hs) as (o & R). pose proof R as (T & _). rewrite T.
-    intros H; injection H as <- <-. apply good_evs; [exact I|]. constructor; [|constructor].
+    intros H; injection H as <- <-. apply good_evs; [exact I|].
+    constructor; [apply no_outcome_ok; reflexivity|]. constructor; [|constructor].
     intros p' o' Ho. cbn [outcome_of] in Ho. destruct (Nat.eqb_spec p p') as [->|]; [|discriminate].
     injection Ho as <-. eauto.
+Qed.
+
+Lemma set_def_good s m d : Inv s -> Good s (set_def s m d) [].
+Proof.
+  intros [W Q]. split; [|split; [intros p pr o A _; exact A|constructor]].
+  split; [exact W|exact Q].
+Qed.
+
+Lemma resolver_good s0 r x s1 e1 : Inv s0 -> resolver good_pcfg s0 r x = (s1, e1) -> Good s0 s1 e1.
+Proof.
+  intros I0. unfold resolver. destruct r.
+  - apply resolve_call_good. exact I0.
+  - intros H; injection H as <- <-. apply good_refl. exact I0.
+Qed.
+
+Lemma meth_send_good s m s0 e0 : Inv s -> meth_send good_pcfg s m = (s0, e0) -> Good s s0 e0.
+Proof.
+  intros I. unfold meth_send. destruct (mbeh m); try (intros H; injection H as <- <-; apply good_refl; exact I).
+  apply send_op_good. exact I.
+Qed.
+
+Lemma meth_result_good nx s0 m s1 x : Inv s0 -> meth_result nx s0 m = (s1, x) -> Good s0 s1 [].
+Proof.
+  intros I. unfold meth_result. destruct (mbeh m); try (intros H; injection H as <- _; apply good_refl; exact I).
+  destruct (dget (defs s0) (mid m)) as [[r|x0|]|]; intros H; injection H as <- _;
+    first [apply set_def_good; exact I | apply good_refl; exact I].
+Qed.
+
+Lemma resolver_opt_good s0 r x s1 e1 : Inv s0 -> resolver_opt good_pcfg s0 r x = (s1, e1) -> Good s0 s1 e1.
+Proof.
+  intros I0. unfold resolver_opt. destruct x; [apply resolver_good; exact I0|].
+  intros H; injection H as <- <-. apply good_refl. exact I0.
 Qed.
 
 Lemma run_task_good s t s' e :
@@ -255,22 +296,19 @@ Proof.
     assert (Hev : forall v0, ev_ok s (EDelivered p v0 o)).
     { intros v0 p' o' Ho. cbn [outcome_of] in Ho. destruct (Nat.eqb_spec p p') as [->|]; [|discriminate].
       injection Ho as <-. eauto. }
-    assert (Hres : forall s0 x s1 e1, Inv s0 -> resolver good_pcfg s0 (mres m) x = (s1, e1) -> Good s0 s1 e1).
-    { intros s0 x s1 e1 I0. unfold resolver. destruct (mres m).
-      - apply resolve_call_good. exact I0.
-      - intros H; injection H as <- <-. apply good_refl. exact I0. }
     destruct o as [v|f].
-    + match goal with |- (let '(_, _) := ?call in _) = _ -> _ => destruct call as [s0 e0] eqn:E0 end.
-      assert (G0 : Good s s0 e0).
-      { destruct (mbeh m); try (injection E0 as <- <-; apply good_refl; exact I).
-        eapply send_op_good; eauto. }
-      match goal with |- (let '(_, _) := ?call in _) = _ -> _ => destruct call as [s1 e1] eqn:Er end.
-      intros H; injection H as <- <-. apply Hres in Er; [|eapply good_inv; exact G0].
-      change (EDelivered p (mid m) (Val v) :: e0 ++ e1) with ([EDelivered p (mid m) (Val v)] ++ (e0 ++ e1)).
-      eapply good_trans; [|eapply good_trans; eassumption].
+    + destruct (meth_send good_pcfg s m) as [s0 e0] eqn:E0.
+      destruct (meth_result (next s) s0 m) as [s0' x] eqn:E1.
+      destruct (resolver_opt good_pcfg s0' (mres m) x) as [s1 e1] eqn:Er.
+      intros H; injection H as <- <-.
+      apply meth_send_good in E0; [|exact I].
+      apply meth_result_good in E1; [|eapply good_inv; exact E0].
+      apply resolver_opt_good in Er; [|eapply good_inv; exact E1].
+      change (EDelivered p (mid m) (Val v) :: e0 ++ e1) with ([EDelivered p (mid m) (Val v)] ++ (e0 ++ ([] ++ e1))).
+      eapply good_trans; [|eapply good_trans; [exact E0|eapply good_trans; eassumption]].
       apply good_evs; [exact I|]. constructor; [apply Hev|constructor].
     + destruct (resolver good_pcfg s (mres m) (RFail f)) as [s1 e1] eqn:Er.
-      intros H; injection H as <- <-. apply Hres in Er; [|exact I].
+      intros H; injection H as <- <-. apply resolver_good in Er; [|exact I].
       change (EDelivered p (mid m) (Fail f) :: e1) with ([EDelivered p (mid m) (Fail f)] ++ e1).
       eapply good_trans; [|exact Er]. apply good_evs; [exact I|]. constructor; [apply Hev|constructor].
   - intros H; injection H as <- <-. apply good_evs; [exact I|]. constructor; [|constructor].
@@ -283,7 +321,7 @@ Lemma run_one_good s s' e : Inv s -> run_one good_pcfg s = (s', e) -> Good s s' 
 Proof.
   intros I. pose proof I as [W Q]. unfold run_one. destruct (queue s) as [|t q'] eqn:Eq.
   - intros H; injection H as <- <-. apply good_refl; exact I.
-  - set (s0 := {| tbl := tbl s; next := next s; queue := q' |}).
+  - set (s0 := {| tbl := tbl s; next := next s; queue := q'; defs := defs s |}).
     assert (I0 : Inv s0) by (split; [exact W|]; inversion Q; assumption).
     assert (T0 : task_ok s0 t) by (inversion Q; assumption).
     intros H. apply run_task_good in H; [|exact I0|exact T0].
@@ -300,9 +338,22 @@ Proof.
     apply IH in E2; [|eapply good_inv; exact E1]. eapply good_trans; eassumption.
 Qed.
 
+Lemma fire_def_good s m x s' e : Inv s -> fire_def good_pcfg s m x = (s', e) -> Good s s' e.
+Proof.
+  intros I. unfold fire_def.
+  match goal with |- (if ?c then _ else _) = _ -> _ => destruct c end.
+  { intros H; injection H as <- <-. apply good_refl; exact I. }
+  destruct (dget (defs s) m) as [[r|x0|]|].
+  - intros H. apply resolver_good in H; [|eapply good_inv; apply set_def_good; exact I].
+    replace e with ([] ++ e) by reflexivity. eapply good_trans; [apply set_def_good; exact I|exact H].
+  - intros H; injection H as <- <-. apply good_refl; exact I.
+  - intros H; injection H as <- <-. apply good_refl; exact I.
+  - intros H; injection H as <- <-. apply set_def_good; exact I.
+Qed.
+
 Lemma pstep_good s o s' e : Inv s -> pstep good_pcfg s o = (s', e) -> Good s s' e.
 Proof.
-  intros I. destruct o as [|p m b|p m b|p w|p x|]; cbn [pstep].
+  intros I. destruct o as [|p m b|p m b|p w|p x|m x|]; cbn [pstep].
   - intros H; injection H as <- <-. apply alloc_good; exact I.
   - apply send_op_good; exact I.
   - apply send_op_good; exact I.
@@ -310,6 +361,7 @@ Proof.
   - destruct x as [v|f|q]; try (apply resolve_call_good; exact I).
     destruct (Nat.ltb q (next s)); [apply resolve_call_good; exact I|].
     intros H; injection H as <- <-. apply good_refl; exact I.
+  - apply fire_def_good; exact I.
   - apply run_n_good; exact I.
 Qed.
 
@@ -422,7 +474,7 @@ Qed.
 
 (* (a) a send is appended behind everything sent before: to _pendingMethods while the promise is
    pending, to the eventual-send queue once it is resolved *)
-Theorem pr_order_send_partial : forall s p pr m b wr s' e,
+Lemma pr_order_send : forall s p pr m b wr s' e,
   tbl s p = Some pr -> (p < next s)%nat -> send_op src_pcfg s p m b wr = (s', e) ->
   (pending_state (pstate pr) = true -> plive pr = true ->
      pending_of s' p = pending_of s p ++ [m] /\ queue s' = queue s) /\
@@ -441,7 +493,7 @@ Qed.
 
 (* (b) resolution releases the queued messages in the order they were sent, then the observers in
    the order they subscribed, behind everything already in the queue; nothing stays behind *)
-Theorem pr_order_release_partial : forall top s p pr o s' e,
+Lemma pr_order_release : forall top s p pr o s' e,
   tbl s p = Some pr -> plive pr = true -> pstate pr <> SBroken ->
   resolve2 src_pcfg top s p o = (s', e) ->
   e = [] /\ pending_of s' p = [] /\
@@ -456,57 +508,10 @@ Proof.
   rewrite upd_same. split; reflexivity.
 Qed.
 
-(* (c) a reactor turn takes the head of the queue; a delivery task hands its message to the
-   promise's resolution exactly once and to nobody else *)
-Lemma resolve_call_no_delivery c top s p x q :
-  delivered_to q (snd (resolve_call c top s p x)) = [].
-Proof.
-  unfold resolve_call, chain_to, resolve2.
-  repeat match goal with
-         | |- context [match ?t with _ => _ end] => destruct t; cbn [snd delivered_to]
-         end; reflexivity.
-Qed.
-
-Lemma send_op_no_delivery c s p m b wr q : delivered_to q (snd (send_op c s p m b wr)) = [].
-Proof.
-  unfold send_op.
-  repeat match goal with
-         | |- context [match ?t with _ => _ end] => destruct t; cbn [snd delivered_to]
-         end; reflexivity.
-Qed.
-
 Lemma delivered_to_app q a b : delivered_to q (a ++ b) = delivered_to q a ++ delivered_to q b.
 Proof.
   induction a as [|e a IH]; [reflexivity|]. destruct e; cbn [app delivered_to]; rewrite ?IH; try reflexivity.
   destruct (Nat.eqb p q); cbn [app]; rewrite ?IH; reflexivity.
-Qed.
-
-Theorem pr_once_deliver_partial : forall s q' p m pr o s' e,
-  queue s = TDeliver p m :: q' -> tbl s p = Some pr -> ptarget pr = Some o ->
-  run_one src_pcfg s = (s', e) ->
-  (forall p', delivered_to p' e = if Nat.eqb p p' then [mid m] else []) /\
-  outcome_of p (hd (ESent 0 0) e) = Some o.
-Proof.
-  intros s q' p m pr o s' e Hq Hp Ht. unfold run_one. rewrite Hq. cbn [run_task tbl]. rewrite Hp, Ht.
-  assert (Hn : forall s0 r x q, delivered_to q (snd (resolver src_pcfg s0 r x)) = []).
-  { intros s0 r x q. unfold resolver. destruct r; [apply resolve_call_no_delivery|reflexivity]. }
-  destruct o as [v|f].
-  - match goal with |- (let '(_, _) := ?call in _) = _ -> _ => destruct call as [s0 e0] eqn:E0 end.
-    assert (H0 : forall q, delivered_to q e0 = []).
-    { intros q. destruct (mbeh m); try (injection E0 as _ <-; reflexivity).
-      match type of E0 with ?c = _ => change e0 with (snd (s0, e0)); rewrite <- E0 end. apply send_op_no_delivery. }
-    match goal with |- (let '(_, _) := ?call in _) = _ -> _ =>
-      match call with resolver _ ?sx ?r ?x => pose proof (fun q => Hn sx r x q) as Hn' end;
-      destruct call as [s1 e1] eqn:Ec end.
-    intros H; injection H as <- <-. cbn [snd] in Hn'.
-    split; [intros p'|cbn [hd outcome_of]; rewrite Nat.eqb_refl; reflexivity].
-    cbn [delivered_to]. rewrite delivered_to_app, (Hn' p'), (H0 p'). destruct (Nat.eqb p p'); reflexivity.
-  - match goal with |- (let '(_, _) := ?call in _) = _ -> _ =>
-      match call with resolver _ ?sx ?r ?x => pose proof (fun q => Hn sx r x q) as Hn' end;
-      destruct call as [s1 e1] eqn:Ec end.
-    intros H; injection H as <- <-. cbn [snd] in Hn'.
-    split; [intros p'|cbn [hd outcome_of]; rewrite Nat.eqb_refl; reflexivity].
-    cbn [delivered_to]. rewrite (Hn' p'). destruct (Nat.eqb p p'); reflexivity.
 Qed.
 
 (* D10, for the record: with `self._state == BROKEN` (comparison) in _break the promise stays EVENTUAL after being
@@ -518,7 +523,7 @@ Proof. vm_compute. split; [auto|]. intros [H|[H|H]]; try discriminate; exact H. 
 
 Example pr_d10_now :
   snd (prun src_pcfg ps0 [PNew; PResolve 0 (RFail 1); PWhen 0 7; PResolve 0 (RVal 3)])
-  = [EObserved 0 7 (Fail 1); ERefused 0 true].
+  = [EWhen 0 7; EObserved 0 7 (Fail 1); ERefused 0 true].
 Proof. vm_compute. reflexivity. Qed.
 
 (* non-vacuity: a chain of promises resolved to promises, sends before and after, observers before and after *)
@@ -526,8 +531,8 @@ Example pr_example :
   let ops := [PNew; PNew; PSend 0 1 (BRet 11); PWhen 0 100; PResolve 0 (RProm 1); PSend 0 2 (BRaise 5);
               PResolve 1 (RVal 9); PTurn; PTurn; PWhen 0 101; PWhen 3 102; PTurn; PResolve 0 (RVal 4)] in
   snd (prun src_pcfg ps0 ops) =
-    [ESent 0 1; ESent 0 2; EDelivered 0 1 (Val 9); EDelivered 0 2 (Val 9); EObserved 0 100 (Val 9);
-     EObserved 0 101 (Val 9); EObserved 3 102 (Fail 5); ERefused 0 true].
+    [ESent 0 1; EWhen 0 100; EChained 0 1; ESent 0 2; EDelivered 0 1 (Val 9); EDelivered 0 2 (Val 9); EObserved 0 100 (Val 9);
+     EWhen 0 101; EObserved 0 101 (Val 9); EWhen 3 102; EObserved 3 102 (Fail 5); ERefused 0 true].
 Proof. vm_compute. reflexivity. Qed.
 
 (* ======================= OneShotObserverList ======================= *)
